@@ -152,13 +152,13 @@ struct SetFaultSweep : EngineBase {
       case SF_EMPLACE: pts = armed(k, [&] { s->emplace(x.key, x.pay); }); break;
       case SF_INSERT_HINT: pts = armed(k, [&] { s->insert(hint ? s->end() : s->begin(), *e); }); break;
       case SF_EMPLACE_HINT: pts = armed(k, [&] { s->emplace_hint(hint ? s->end() : s->begin(), x.key, x.pay); }); break;
-      case SF_RANGE: with_range<E>(vals.size() % 2 ? RK_PTR : RK_LIST, vals, [&](auto f, auto l) { pts = armed(k, [&] { s->insert(f, l); }); }); break;
+      case SF_RANGE: with_range<E>(vals.size() % 3 == 1 ? RK_PTR : vals.size() % 3 == 2 ? RK_LIST : RK_PROTO, vals, [&](auto f, auto l) { pts = armed(k, [&] { s->insert(f, l); }); }); break;
       case SF_IL: with_il(vals, [&](std::initializer_list<E> il) { pts = armed(k, [&] { s->insert(il); }); }); break;
       case SF_MERGE_SAME: pts = armed(k, [&] { s->merge(*o1); }); break;
       case SF_MERGE_OTHER: pts = armed(k, [&] { s->merge(*o2); }); break;
       case SF_COPY_CTOR: np = raw_new<SetT>(); pts = armed(k, [&] { new (np) SetT(*o1); }); break;
       case SF_COPY_ASSIGN: pts = armed(k, [&] { *s = *o1; }); break;
-      case SF_CTOR_RANGE: np = raw_new<SetT>(); with_range<E>(RK_PTR, vals, [&](auto f, auto l) { pts = armed(k, [&] { new (np) SetT(f, l, c1); }); }); break;
+      case SF_CTOR_RANGE: np = raw_new<SetT>(); with_range<E>(vals.size() % 2 ? RK_PTR : RK_PROTO, vals, [&](auto f, auto l) { pts = armed(k, [&] { new (np) SetT(f, l, c1); }); }); break;
       case SF_ASSIGN_IL: with_il(vals, [&](std::initializer_list<E> il) { pts = armed(k, [&] { *s = il; }); }); break;
     }
     { MonScope mm; delete e; }
